@@ -284,6 +284,9 @@ func mutJobCase(c *PRNG, res *Result, sc *SimContext) {
 	if accepted != (len(refRes.Errors) == 0) {
 		hit("C16/webhook-and-mutator-disagree-on-admission", fmt.Sprintf("allowed=%v, mutator errors %v", accepted, refRes.Errors))
 	}
+	if patchCapture != nil && accepted && len(refRes.Errors) == 0 {
+		patchCapture(typed, ref, resp.Patch)
+	}
 	_, userLabel := typed.Labels[jobconfig.LabelKeyJobConfigUID]
 	if !accepted && op == admissionv1.Create && typed.Spec.ConfigName != "" && len(typed.OwnerReferences) == 0 && !userLabel {
 		// a Job created with configName gets the owner reference and the UID label FROM the
@@ -508,6 +511,9 @@ func mutJobConfigCase(c *PRNG, res *Result, sc *SimContext) {
 	_ = json.Unmarshal(raw, typed)
 	ref := typed.DeepCopy()
 	mutation.NewJobConfigPatcher(sc).Patch(op, old, ref)
+	if patchCapture != nil {
+		patchCapture(typed, ref, resp.Patch)
+	}
 	got := &execution.JobConfig{}
 	if err := json.Unmarshal(patched, got); err != nil {
 		panic(err)
